@@ -237,7 +237,7 @@ impl Property for C02 {
         vec!["ring sound; 8-hex-digit prefixes of generated key ids are distinct (checked: colliding cases are discarded)".into()]
     }
     fn cases(tier: Tier) -> u64 {
-        tier.pick(6_000, 300_000)
+        tier.pick(10_000, 300_000)
     }
     fn strategy(_tier: Tier) -> BoxedStrategy<Spec> {
         let cfg = Cfg { min_steps: 1, max_steps: 4, max_owners: 1, ..Cfg::basic() };
